@@ -144,6 +144,10 @@ func (w *World) ledgerProbes(full bool, withIGP bool) []Probe {
 			}
 		}
 	}
+	// vouchers Noble itself holds in the channel escrow (it once sent them out over this channel), named by their hash and by
+	// their full trace: not Noble-native, so the orbiter must refuse them — handing them to the plain ICS-20 flow instead
+	// (seeds C16e, C01g) credits the orbiter account with a success acknowledgement
+	coins = append(coins, coinV{"channel-0", denomHashedVoucher, "1000", false}, coinV{"channel-1", "transfer/channel-1/uatom", "1000", false})
 	for _, r := range sub {
 		for _, m := range memos {
 			for _, c := range coins {
